@@ -885,6 +885,8 @@ def check_C18(tier):
                 env={"VH_CLI": vlib.build_cli()})
     # several statements in one process: what a statement prints does not depend on what ran before it (fresh engine, printer, DISTINCT memory, compiled patterns)
     session_run(c, "history", SESSION_CMDS, 3 if t else 2, formats=("text", "json", "csv") if t else ("text", "csv"))
+    # rows in input order at the level of the process: the files in the order (and as often as) the command line names them, whatever their names are
+    cli_run(c, "files-order", ["all", "limit1", "limit2", "count"], ["ok"], ["text"], 3 if t else 2, fileids=("fb", "fa", "fc"))
     # a table defined again between two statements that join it: the second statement sees the new definition (nothing loaded for the first is used again)
     session_run(c, "redefine", ["join", "join2", "redefj", "count"], 4 if t else 3, formats=("text",))
     engine_sim(c, "determinism", "DistinctMenu", lines="Lines4", maxlines=10, num=1000 if t else 80)
